@@ -2,6 +2,7 @@
 From Coq Require Import List Arith NArith Bool.
 From BP Require Import Base.Field Model.Verifier Model.VerifyTop Model.Prover Model.Gens Proofs.GuardsP Proofs.GensP.
 Import ListNotations.
+From BP Require Import Model.Prover Proofs.CompleteP Proofs.CapacityP.
 Local Close Scope N_scope.
 
 (** zero padding up to the table size contributes nothing: A is the same function of the first bits*m
@@ -30,3 +31,24 @@ Print Assumptions C12_static_scalars_fill_table.
 Theorem C12_chain_prefix : forall n n' bs, n <= n' -> split64 n bs = firstn n (split64 n' bs).
 Proof. exact split64_firstn. Qed.
 Print Assumptions C12_chain_prefix.
+
+(** THE PROPERTY on the prover side: the proof does not depend on the capacity of the parameter object.
+    Generator sets that agree on H, the blinding generators and the first m*bits vector generators (every
+    capacity is a prefix view of the same chains: C12_chain_prefix) give the SAME proof under the same
+    nonces and challenges, whatever the two capacities and zero paddings. *)
+Theorem C12_prover_capacity_independent : forall (K : Fld), FldOk K -> forall (M : Mod K), ModOk K M ->
+  forall (g1 g2 : gens K M) bits cap1 cap2 (values : list N) (promises : list (option N)) (blindings : list (list K)) (nn : nonces K) (ch : pchals K) a,
+  let m := length values in
+  let N := (m * bits)%nat in
+  let T := length (g_Gb g1) in
+  g_H g1 = g_H g2 -> g_Gb g1 = g_Gb g2 ->
+  firstn N (g_G g1) = firstn N (g_G g2) -> firstn N (g_Hv g1) = firstn N (g_Hv g2) ->
+  (1 <= bits)%nat -> m = (2 ^ a)%nat -> (m <= cap1)%nat -> (m <= cap2)%nat ->
+  length (g_G g1) = (bits * cap1)%nat -> length (g_Hv g1) = (bits * cap1)%nat ->
+  length (g_G g2) = (bits * cap2)%nat -> length (g_Hv g2) = (bits * cap2)%nat ->
+  N = (2 ^ length (pc_es ch))%nat -> pc_y ch <> f0 K -> Forall (fun e => e <> f0 K) (pc_es ch) ->
+  length promises = m -> length blindings = m -> Forall (fun r => length r = T) blindings ->
+  wf_nonces K T (length (pc_es ch)) nn ->
+  prove_core K M bits cap1 g1 values promises blindings nn ch = prove_core K M bits cap2 g2 values promises blindings nn ch.
+Proof. exact prover_capacity_independent. Qed.
+Print Assumptions C12_prover_capacity_independent.
